@@ -2,7 +2,10 @@
 
 package rosmar
 
-import "database/sql"
+import (
+	"database/sql"
+	"time"
+)
 
 // Intrinsics: intercepted by the symbolic executor (gosmt). Bodies are never run.
 
@@ -58,3 +61,9 @@ func verifIfI64(c bool, a, b int64) int64 { panic("intrinsic") }
 
 func verifSameEncoded(a, b []byte) bool { panic("intrinsic") } // DCP value+xattrs encodings equal up to xattr order
 func verifCount(cs ...bool) int         { panic("intrinsic") }
+
+func verifTimerArmed(t *time.Timer) bool              { panic("intrinsic") }
+func verifTimerWithin(t *time.Timer, exp uint32) bool { panic("intrinsic") } // armed, and fires no later than (exp - now_at_arming) seconds (0 if past)
+func verifCommitCount(db *sql.DB) int                 { panic("intrinsic") } // number of times the committed state of db was replaced
+
+func verifFaults(db *sql.DB, budget int) { panic("intrinsic") } // enable symbolic fault injection on Begin/Exec/Commit
